@@ -1,10 +1,122 @@
 import SkaModel.Core.Proto
+import SkaModel.Core.Aggregation
+import SkaModel.Drv.Label
 
-/-! Driver commands for the `Agg` model family. One self-contained case per line. -/
+/-! Driver commands for the `Agg` model family (C17). One self-contained case per line.
+Labels / arrays / classes use the token format of `Drv/Label.lean`; weights and noise are doubles
+(bit patterns, `nan` for NaN). -/
 
 namespace Ska.Drv.Agg
-open Ska Ska.Proto
+open Ska Ska.Proto Ska.Label Ska.Agg Ska.Drv.Label
 
-def handlers : List (String × P String) := []
+/-- `<cg:0|1> [<kc> <K> classes…]` -/
+def classesArg : P (Option (ArrKind × List (Lbl Int))) := do
+  let cg ← bool
+  if cg then do
+    let kc ← kind
+    let cls ← listOf lbl
+    pure (some (kc, cls))
+  else pure none
+
+/-- `0` | `1 <rows> <cols|-> weights…` ↦ rows of optional weights -/
+def weightsArg : P (Option (List (List (Option Float)))) := do
+  let given ← bool
+  if !given then pure none
+  else
+    let r ← nat
+    let ct ← tok
+    if ct = "-" then
+      let f ← many optFloat r
+      pure (some (f.map (fun x => [x])))
+    else
+      match ct.toNat? with
+      | none => failure
+      | some c =>
+        let f ← many optFloat (r * c)
+        pure (some (rowsOf c r f))
+
+/-- encoded rows of an array: 1-d arrays become one column (`y.reshape((-1, 1))`). -/
+def encRows (y : Arr Int) (codes : List Int) : List (List Int) :=
+  match y.cols with
+  | none => codes.map (fun e => [e])
+  | some c => rowsOf c y.rows codes
+
+def showMatrix (v : List (List Float)) (k : Nat) : String :=
+  s!"ok {v.length} {k} " ++ showFloats v.flatten
+
+/-- `votes <ml|bad> <classes> <arr y> <weights>` → `ok <n> <K> v…` -/
+def cmdVotes : P String := do
+  let ml ← mlArg
+  let classes ← classesArg
+  let y ← arr
+  let w ← weightsArg
+  match encoderFit ml classes y with
+  | .error e => pure (showErr e)
+  | .ok f =>
+    match encoderTransform f y with
+    | .error e => pure (showErr e)
+    | .ok codes =>
+      let k := f.classes.length
+      match computeVoteVectors (α := Float) k (encRows y codes) w with
+      | .error e => pure (showErr e)
+      | .ok v => pure (showMatrix v k).trimAscii.toString
+
+/-- `majority <ml|bad> <classes> <arr y> <weights> <nr> <nc> noise…` → `ok labels…` -/
+def cmdMajority : P String := do
+  let ml ← mlArg
+  let classes ← classesArg
+  let y ← arr
+  let w ← weightsArg
+  let nr ← nat
+  let nc ← nat
+  let nz ← many float (nr * nc)
+  match encoderFit ml classes y with
+  | .error e => pure (showErr e)
+  | .ok f =>
+    match encoderTransform f y with
+    | .error e => pure (showErr e)
+    | .ok codes =>
+      match majorityVote (α := Float) (β := Float) f.classes.length (encRows y codes) w (rowsOf nc nr nz) with
+      | .error e => pure (showErr e)
+      | .ok picks =>
+        match encoderInverse f picks with
+        | .error e => pure (showErr e)
+        | .ok ls => pure ("ok " ++ showLbls ls).trimAscii.toString
+
+def parseNorm : P (Option Norm) := do
+  match (← tok) with
+  | "none" => pure (some .none_)
+  | "true" => pure (some .true_)
+  | "pred" => pure (some .pred)
+  | "all" => pure (some .all)
+  | _ => pure none
+
+/-- `extconf <none|true|pred|all|other> <ml|bad> <classes> <arr column_stack((y_true, y_pred))>`
+→ `ok <A> <K> entries…` -/
+def cmdExtConf : P String := do
+  let norm ← parseNorm
+  let ml ← mlArg
+  let classes ← classesArg
+  let y ← arr
+  match norm with
+  | none => pure (showErr .normalize)
+  | some _ =>
+    match encoderFit ml classes y with
+    | .error e => pure (showErr e)
+    | .ok f =>
+      match encoderTransform f y with
+      | .error e => pure (showErr e)
+      | .ok codes =>
+        let rows := encRows y codes
+        let ts := rows.map (fun r => r.getD 0 (-1))
+        let nA := (y.cols.getD 1) - 1
+        let predCols := (List.range nA).map (fun a => rows.map (fun r => r.getD (a+1) (-1)))
+        let k := f.classes.length
+        match extConfusionMatrix (α := Float) Nat.toFloat k ts predCols norm with
+        | .error e => pure (showErr e)
+        | .ok ms => pure (s!"ok {ms.length} {k} " ++ showFloats (ms.map List.flatten).flatten).trimAscii.toString
+
+def handlers : List (String × P String) :=
+  [ ("votes", cmdVotes), ("majority", cmdMajority), ("extconf", cmdExtConf) ]
 
 end Ska.Drv.Agg
